@@ -28,6 +28,7 @@ type NextMethodP struct {
 
 // Call the the function with the arguments provided.
 func (f *NextMethodP) Call(s *slip.Scope, args slip.List, depth int) slip.Object {
+	slip.CheckArgCount(s, depth, f, args, 0, 0)
 	var loc *slip.WhopLoc
 	if s.Has("~whopper-location~") {
 		loc, _ = s.Get("~whopper-location~").(*slip.WhopLoc)
